@@ -1,2 +1,142 @@
-import EasyMl.Model.Iter
-import EasyMl.Spec.Iter
+/-
+  EasyMl.Props.C09 — property theorems for C09 (iterators yield each element once, in the
+  documented order, with exact lengths).
+
+  Only property statements (and their non-vacuity examples) live here; helper lemmas are in
+  EasyMl/Lemmas/Iter.lean.  Every theorem is about the very definitions the `emlmodel` driver
+  executes against the implementation (EasyMl/Model/Iter.lean) and the specification
+  (EasyMl/Spec/Iter.lean).  All statements are for every dimensionality, every shape and every
+  number `k` of calls already made.
+-/
+import EasyMl.Lemmas.Iter
+
+namespace EasyMl.C09
+open EasyMl EasyMl.Iter EasyMl.Spec
+
+/-! ## The bare shape iterator -/
+
+/-- After `k < Π lengths` calls the next item is the index tuple whose mixed-radix value is
+    `k` (last dimension fastest) — the documented order. -/
+theorem shapeIter_kth (shape : List Nat) (k : Nat) (hk : k < prod shape) :
+    (ShapeIter.steps k (ShapeIter.new shape)).next.1 = some (unravel shape k) := by
+  obtain ⟨hs, hlt, _⟩ := steps_spec shape k
+  obtain ⟨hf, hi⟩ := hlt hk
+  have hb : inBounds (ShapeIter.steps k (ShapeIter.new shape)).shape
+      (ShapeIter.steps k (ShapeIter.new shape)).indexes = true := by
+    rw [hs, hi]; exact unravel_inBounds shape k hk
+  rw [(next_spec _ hf hb).1, hi]
+
+example : (ShapeIter.steps 7 (ShapeIter.new [2, 3, 2])).next.1 = some [1, 0, 1] := by decide
+
+/-- Every yielded index lies inside the shape (this is what makes the `get_reference_unchecked`
+    calls of the element iterators legal, C10). -/
+theorem shapeIter_items_inBounds (shape : List Nat) (k : Nat) (idx : List Nat)
+    (h : (ShapeIter.steps k (ShapeIter.new shape)).next.1 = some idx) :
+    inBounds shape idx = true := by
+  rcases Nat.lt_or_ge k (prod shape) with hk | hk
+  · rw [shapeIter_kth shape k hk] at h
+    cases h
+    exact unravel_inBounds shape k hk
+  · rw [next_finished _ ((steps_spec shape k).2.2 hk)] at h
+    cases h
+
+/-- Each index of the shape is yielded exactly once: at call number `ravel shape idx` and at no
+    other call. -/
+theorem shapeIter_each_index_once (shape : List Nat) (idx : List Nat)
+    (hb : inBounds shape idx = true) (j : Nat) :
+    (ShapeIter.steps j (ShapeIter.new shape)).next.1 = some idx ↔ j = ravel shape idx := by
+  constructor
+  · intro h
+    rcases Nat.lt_or_ge j (prod shape) with hj | hj
+    · rw [shapeIter_kth shape j hj] at h
+      cases h
+      exact (ravel_unravel shape j hj).symm
+    · rw [next_finished _ ((steps_spec shape j).2.2 hj)] at h
+      cases h
+  · intro h
+    subst h
+    rw [shapeIter_kth shape _ (ravel_lt shape idx hb), unravel_ravel shape idx hb]
+
+example : inBounds [2, 3, 2] [1, 2, 0] = true ∧ ravel [2, 3, 2] [1, 2, 0] = 10 := by decide
+
+/-- The order of the items is the lexicographic order of the index tuples. -/
+theorem shapeIter_lexicographic (shape : List Nat) (j k : Nat) (hjk : j < k)
+    (hk : k < prod shape) : List.Lex (· < ·) (unravel shape j) (unravel shape k) :=
+  unravel_lex shape j k hjk hk
+
+/-- `size_hint()` after `k` calls is `(Π lengths − k, Some(Π lengths − k))` for every `k`,
+    including past the end (truncated subtraction gives 0), computed without overflow or
+    underflow; hence `len()` is exactly the number of items still to come.
+    The element count must itself fit in a `usize` (otherwise no length can be reported, see
+    `shapeIter_len_unrepresentable`). -/
+theorem shapeIter_len (shape : List Nat) (hfit : prod shape ≤ usizeMax) (k : Nat) :
+    (ShapeIter.steps k (ShapeIter.new shape)).sizeHint =
+        .ok (remaining (prod shape) k, some (remaining (prod shape) k)) ∧
+      lenOfHint (ShapeIter.steps k (ShapeIter.new shape)).sizeHint =
+        .ok (remaining (prod shape) k) := by
+  have key : (ShapeIter.steps k (ShapeIter.new shape)).sizeHint =
+      .ok (remaining (prod shape) k, some (remaining (prod shape) k)) := by
+    obtain ⟨hs, hlt, hge⟩ := steps_spec shape k
+    rcases Nat.lt_or_ge k (prod shape) with hk | hk
+    · obtain ⟨hf, hi⟩ := hlt hk
+      have hb : inBounds (ShapeIter.steps k (ShapeIter.new shape)).shape
+          (ShapeIter.steps k (ShapeIter.new shape)).indexes = true := by
+        rw [hs, hi]; exact unravel_inBounds shape k hk
+      rw [sizeHint_spec _ hf hb (by rw [hs]; exact hfit), hs, hi, ravel_unravel shape k hk]
+      rfl
+    · rw [sizeHint_finished _ (hge hk)]
+      have : remaining (prod shape) k = 0 := by unfold remaining; omega
+      rw [this]
+  exact ⟨key, by rw [key]; simp [lenOfHint]⟩
+
+example : prod [2, 3, 2] ≤ usizeMax := by decide
+
+/-- What the code does when the element count does not fit: the `product()` inside
+    `size_hint` overflows (a panic in builds with overflow checks). -/
+theorem shapeIter_len_unrepresentable (shape : List Nat) (hpos : ∀ l ∈ shape, 0 < l)
+    (hne : shape ≠ []) (hbig : usizeMax < prod shape) :
+    (ShapeIter.new shape).sizeHint = .panic .overflow := by
+  have hf : (ShapeIter.new shape).finished = false := by
+    cases h : (ShapeIter.new shape).finished with
+    | false => rfl
+    | true =>
+      have := (new_spec shape).2.2.mp h
+      have := prod_pos_of_all_pos shape hpos
+      omega
+  have hD : shape.length > 0 := by
+    cases shape with
+    | nil => exact absurd rfl hne
+    | cons _ _ => simp
+  unfold ShapeIter.sizeHint
+  simp only [hf, Bool.false_eq_true, if_false]
+  have hs : (ShapeIter.new shape).shape = shape := rfl
+  rw [hs]
+  simp only [hD, if_true]
+  rw [prodC_overflow shape 1 (by omega) (by simp [usizeMax]) hpos (by omega)]
+
+example : usizeMax < prod [2 ^ 63, 2] := by decide
+
+/-- Every `indexes[d] += 1` stays at or below the length of its dimension, so it cannot
+    overflow for lengths that are `usize` values. -/
+theorem shapeIter_indexes_le (shape : List Nat) (k : Nat) :
+    leBounds shape (ShapeIter.steps k (ShapeIter.new shape)).indexes = true :=
+  steps_leBounds shape k
+
+/-- Fused: once all `Π lengths` items have been yielded, `next` returns `None` and leaves the
+    iterator as it is — so it returns `None` forever. -/
+theorem shapeIter_fused (shape : List Nat) (k : Nat) (hk : prod shape ≤ k) :
+    (ShapeIter.steps k (ShapeIter.new shape)).next =
+      (none, ShapeIter.steps k (ShapeIter.new shape)) :=
+  next_finished _ ((steps_spec shape k).2.2 hk)
+
+/-- A shape with a zero length yields nothing, at any point, and reports length 0. -/
+theorem shapeIter_zero_len (shape : List Nat) (h0 : 0 ∈ shape) (k : Nat) :
+    (ShapeIter.steps k (ShapeIter.new shape)).next.1 = none ∧
+      (ShapeIter.steps k (ShapeIter.new shape)).sizeHint = .ok (0, some 0) := by
+  have hp := prod_eq_zero_of_mem shape h0
+  have hf := (steps_spec shape k).2.2 (by omega)
+  exact ⟨by rw [next_finished _ hf], sizeHint_finished _ hf⟩
+
+example : (ShapeIter.new [2, 0, 3]).next.1 = none := by decide
+
+end EasyMl.C09
